@@ -12,8 +12,12 @@ import (
 	"net"
 	"net/http/httptest"
 	"net/netip"
+	"os"
+	"runtime"
 	"strings"
 	"sync"
+	"sync/atomic"
+	"syscall"
 	"testing"
 	"testing/synctest"
 	"time"
@@ -56,6 +60,24 @@ func vfBubble(t *testing.T, f func(t *testing.T)) (res string) {
 	}()
 	synctest.Test(t, f)
 	return ""
+}
+
+// vfServeTask is an interface task (advertiser or monitor) as handed to Server.Serve.
+type vfServeTask struct {
+	name  string
+	ready <-chan struct{}
+	run   func(context.Context) error
+}
+
+func (t *vfServeTask) Run(ctx context.Context) error { return t.run(ctx) }
+func (t *vfServeTask) String() string                { return "vf-task-" + t.name }
+func (t *vfServeTask) Ready() <-chan struct{} {
+	if t.ready != nil {
+		return t.ready
+	}
+	c := make(chan struct{})
+	close(c)
+	return c
 }
 
 type vfSession struct {
@@ -146,6 +168,28 @@ func vfRunScenario(t *testing.T, rec *vfRec, sc map[string]any) {
 	)
 	terminate := func() bool { termMu.Lock(); defer termMu.Unlock(); return term }
 
+	// "serve": the interface tasks run under the real Server.Serve with its real signal task and terminator; a stop
+	// request is a signal on sigC. The advertisers ask the real terminator through a closure that records the
+	// question, so the driver can tell whether it was asked before the signal kind was recorded (see "cancel").
+	serveMode := vfBool(cfg, "serve", false)
+	var (
+		srv       *Server
+		sigC      chan os.Signal
+		tasks     []Task
+		asked     atomic.Int32
+		autoOnce  sync.Once
+		serveDone = make(chan struct{})
+	)
+	if serveMode {
+		srv = NewServer(cctx)
+		sigC = make(chan os.Signal, 1)
+		terminate = func() bool {
+			asked.Add(1)
+			rec.emit("termask")
+			return srv.t.terminate()
+		}
+	}
+
 	dials := vfList(cfg, "dials")
 	var dialMu sync.Mutex
 	ndial := 0
@@ -216,15 +260,35 @@ func vfRunScenario(t *testing.T, rec *vfRec, sc map[string]any) {
 		sessions[n] = s
 
 		var run func(context.Context) error
+		var taskOf any
 		if mode == "mon" {
 			m := NewMonitor(cctx, n, d, s.watchC, vfBool(cfg, "verbose", false))
-			run = m.Run
+			run, taskOf = m.Run, m
 		} else {
 			ad := NewAdvertiser(cctx, ifc, d, s.watchC, terminate)
 			ad.OnInconsistentRA = func(ours, theirs *ndp.RouterAdvertisement) {
 				rec.emit("hook", "ifi", n, "life", int(ours.RouterLifetime/time.Second), "body", vfBodyDigest(ours))
 			}
-			run = ad.Run
+			run, taskOf = ad.Run, ad
+		}
+		if serveMode {
+			var ready <-chan struct{}
+			if r, ok := taskOf.(interface{ Ready() <-chan struct{} }); ok {
+				ready = r.Ready()
+			}
+			tasks = append(tasks, &vfServeTask{name: n, ready: ready, run: func(ctx context.Context) error {
+				err := run(ctx)
+				if err != nil {
+					rec.emit("ret", "ifi", n, "res", "err", "msg", err.Error())
+					// Serve is about to cancel the other tasks because of this error (a reload-like stop for them)
+					autoOnce.Do(func() { rec.emit("cancel", "term", false, "auto", true, "cause", n) })
+				} else {
+					rec.emit("ret", "ifi", n, "res", "nil", "msg", "")
+				}
+				close(s.done)
+				return err
+			}})
+			continue
 		}
 		wg.Add(1)
 		go func() {
@@ -237,6 +301,41 @@ func vfRunScenario(t *testing.T, rec *vfRec, sc map[string]any) {
 			}
 			close(s.done)
 		}()
+	}
+	if serveMode {
+		go func() {
+			err := srv.Serve(sigC, nil, tasks)
+			rec.emit("sret", "err", err != nil)
+			close(serveDone)
+		}()
+	}
+	// stop requests: the driver's own cancel function, or a signal delivered to the real signal task
+	stopAll := func(term bool) {
+		if !serveMode {
+			for _, s := range sessions {
+				s.cancel()
+			}
+			return
+		}
+		var sg os.Signal = syscall.SIGHUP
+		if term {
+			sg = syscall.SIGTERM
+		}
+		// Delivered while the driver holds the terminator's mutex: the signal kind cannot be recorded before the
+		// driver lets go, so a task that asks terminate() meanwhile was cancelled before the decision existed.
+		// "tgate false" is written before the mutex is released.
+		srv.t.mu.Lock()
+		rec.emit("tgate", "held", true)
+		before := asked.Load()
+		select {
+		case sigC <- sg:
+		default:
+		}
+		for i := 0; i < 20000 && asked.Load() == before; i++ {
+			runtime.Gosched()
+		}
+		rec.emit("tgate", "held", false)
+		srv.t.mu.Unlock()
 	}
 	synctest.Wait()
 	rec.emit("quiet")
@@ -350,9 +449,7 @@ func vfRunScenario(t *testing.T, rec *vfRec, sc map[string]any) {
 			termMu.Unlock()
 			rec.emit("cancel", "term", vfBool(st, "term", false), "auto", false)
 			cancelled = true
-			for _, s := range sessions {
-				s.cancel()
-			}
+			stopAll(vfBool(st, "term", false))
 		case "link":
 			rec.emit("link", "ifi", ifi)
 			select {
@@ -424,9 +521,7 @@ func vfRunScenario(t *testing.T, rec *vfRec, sc map[string]any) {
 	rec.emit("quiet")
 	if !cancelled {
 		rec.emit("cancel", "term", false, "auto", true)
-		for _, s := range sessions {
-			s.cancel()
-		}
+		stopAll(false)
 		synctest.Wait()
 	}
 	alldone := func() bool {
@@ -446,6 +541,13 @@ func vfRunScenario(t *testing.T, rec *vfRec, sc map[string]any) {
 	}
 	if !alldone() {
 		rec.emit("hang")
+	}
+	if serveMode {
+		select {
+		case <-serveDone:
+		default:
+			rec.emit("hang")
+		}
 	}
 	rec.emit("metrics", "vals", vm.snapshot())
 	_ = wg
